@@ -1,6 +1,7 @@
 package worlds
 
 import (
+	"math"
 	"errors"
 	"fmt"
 	"strings"
@@ -245,7 +246,7 @@ func (g *pgen) node(depth int) *pnode {
 	case 1:
 		return &pnode{op: "map", fn: r.Choose(3, "mapf"), kids: []*pnode{g.node(depth - 1)}}
 	case 2:
-		return &pnode{op: "first", n: []int{2, 0, 1, 5, 100, -1}[r.Choose(6, "first-n")], kids: []*pnode{g.node(depth - 1)}}
+		return &pnode{op: "first", n: []int{2, 0, 1, 5, 100, -1, math.MaxInt}[r.Choose(7, "first-n")], kids: []*pnode{g.node(depth - 1)}}
 	case 3:
 		w := &pnode{op: "while", fn: r.Choose(6, "pred"), kids: []*pnode{g.node(depth - 1)}}
 		if w.fn == 5 {
